@@ -870,7 +870,7 @@ func ruleFloatWidth(r *Run, p *Prog) {
 				}
 				spread, elems := appendElems(c)
 				if spread != nil {
-					str, isS := constString(spread)
+					str, isS := constString(pa.ResolveAt(spread, bi)) // a literal chosen by an earlier switch
 					if !isS {
 						bad = "appends " + descr(spread)
 						return
